@@ -528,7 +528,36 @@ class _Linalg:
         return _fall(getattr(_np.linalg, name))
 
 
+def _dft_matrix(n, inverse=False):
+    """exact DFT matrix entries exp(-+2 pi i j k / n) (symbolic numbers over sqrt/trig atoms)"""
+    from sympy import Rational as _R
+    W = _np.empty((n, n), dtype=object)
+    for j in range(n):
+        for k in range(n):
+            ang = Sym(S.PI * _R(2 * ((j * k) % n), n))
+            c_, s_ = S.s_cos(ang), S.s_sin(ang)
+            W[j, k] = c_ + Sym(_sp.I) * s_ * (1 if inverse else -1)
+    return W
+
+
 class _FFT:
+    """np.fft on symbolic data is the discrete Fourier transform *by definition* (library axiom);
+    concrete data go to NumPy"""
+
+    def fft2(self, a, *args, **k):
+        if not _has_sym(a):
+            return _post(_np.fft.fft2(unwrap(a), *args, **k))
+        a = _np.asarray(a, dtype=object)
+        n0, n1 = a.shape
+        W0, W1 = _dft_matrix(n0), _dft_matrix(n1)
+        return wrap(_np.dot(_np.dot(W0, a), W1))
+
+    def fftshift(self, a, *args, **k):
+        return wrap(_np.fft.fftshift(_np.asarray(a, dtype=object) if _has_sym(a) else unwrap(a), *args, **k))
+
+    def ifftshift(self, a, *args, **k):
+        return wrap(_np.fft.ifftshift(_np.asarray(a, dtype=object) if _has_sym(a) else unwrap(a), *args, **k))
+
     def __getattr__(self, name):
         return _fall(getattr(_np.fft, name))
 
@@ -554,6 +583,12 @@ def _fall(fn):
         return _post(fn(*a2, **k2))
     f.__name__ = getattr(fn, '__name__', 'np_fn')
     return f
+
+
+def pad(a, pad_width, mode='constant', constant_values=0, **kw):
+    if not _has_sym(a):
+        return _post(_np.pad(unwrap(a), pad_width, mode=mode, constant_values=unwrap(constant_values), **kw))
+    return wrap(_np.pad(_np.asarray(a, dtype=object), pad_width, mode=mode, constant_values=constant_values, **kw))
 
 
 def vectorize(pyfunc, **kw):
